@@ -2,9 +2,10 @@
    MAC core: every uplink gets the current counter, which moves only by +1 on rx2_complete / an accepted downlink, with
    SessionExpired instead of wrapping.  Asynchronous front-end (Model/AsyncDev.v, tied to async_device/mod.rs by the correspondence
    run): every send that returns has concluded its uplink, whatever the radio did; counters of successive uplinks of a session
-   strictly increase.  The non-blocking front-end (nb_device) is covered by fault-position enumeration only (partial: see DESIGN). *)
+   strictly increase.  Non-blocking front-end (Model/NbDev.v, tied to nb_device/state.rs the same way): the same for every sequence of
+   events and radio answers. *)
 From Coq Require Import NArith ZArith List Bool.
-From LoraV Require Import Base.Bytes Model.Frame Model.Region Model.Mac Model.AsyncDev Proofs.SessionProofs Proofs.AsyncProofs.
+From LoraV Require Import Base.Bytes Model.Frame Model.Region Model.Mac Model.AsyncDev Model.NbDev Proofs.SessionProofs Proofs.AsyncProofs Proofs.NbProofs.
 Import ListNotations.
 Local Open Scope N_scope.
 
@@ -56,4 +57,17 @@ Section C06.
   (* no operation of the front-end on an established session changes its keys or moves the counter backwards *)
   Theorem C06_async_never_rewinds : forall d d', same_session enc mac_fn d d' -> frel d d'.
   Proof. exact (same_session_frel enc mac_fn). Qed.
+
+  (* nb_device: a send from Idle that builds a frame from counter c1, then ANY events (sends, radio events answered by the radio with
+     Txing / TxDone / Idle / Rxing / an error / any received packet, timeouts), with a fault at any radio call, none of them reporting
+     session expiry (nor a panic / endless loop), then another frame built: its counter is strictly larger *)
+  Theorem C06_nb_counters_strictly_increase : forall m e data fport confirmed draws ans st1 m1 e1 r1 s o1 st2 m2 data2 fport2 confirmed2 draws2 o2,
+    m_state m = Joined s ->
+    handle_event enc mac_fn NIdle m e (NSend data fport confirmed draws) ans = (st1, m1, e1, r1) ->
+    r1 <> NrSessionExpired -> r1 <> NrPanic -> r1 <> NrHang ->
+    send enc mac_fn m data fport confirmed draws = Val (SendOk o1) ->
+    nsteps enc mac_fn st1 m1 st2 m2 ->
+    st2 = NIdle -> send enc mac_fn m2 data2 fport2 confirmed2 draws2 = Val (SendOk o2) ->
+    to_counter o1 < to_counter o2.
+  Proof. exact (nb_counters_strictly_increase enc mac_fn). Qed.
 End C06.
